@@ -276,7 +276,7 @@ func checkBufferViews(c *Ctx, r *Report, rule string) {
 		name := c.FnName(fn)
 		r.Fn(name)
 		var views, grows []*ssa.Call
-		allInstrs(fn, false, func(in ssa.Instruction) {
+		rawInstrs(fn, false, func(in ssa.Instruction) {
 			if call, ok := in.(*ssa.Call); ok {
 				switch calleeName(&call.Call) {
 				case pre, app:
@@ -294,7 +294,7 @@ func checkBufferViews(c *Ctx, r *Report, rule string) {
 			derived := map[ssa.Value]bool{v: true}
 			for changed := true; changed; {
 				changed = false
-				allInstrs(fn, false, func(in ssa.Instruction) {
+				rawInstrs(fn, false, func(in ssa.Instruction) {
 					val, ok := in.(ssa.Value)
 					if !ok || derived[val] {
 						return
@@ -321,7 +321,7 @@ func checkBufferViews(c *Ctx, r *Report, rule string) {
 					}
 				})
 			}
-			allInstrs(fn, false, func(in ssa.Instruction) {
+			rawInstrs(fn, false, func(in ssa.Instruction) {
 				uses := false
 				for _, op := range in.Operands(nil) {
 					if op != nil && *op != nil && derived[*op] {
